@@ -453,7 +453,8 @@ class SpecGen:
             if form == 'SUMIFC':
                 if rnd.random() < 0.5:
                     return f'SUMIF({txt},">"&{key})', prec + pk, dk
-                return f'COUNTIF({txt},{key})', prec + pk, dk
+                # (a blank criteria cell makes pycel's criteria parser raise: C15, not claimed)
+                return f'COUNTIF({txt},{key}&"")', prec + pk, dk
             if form in ('SUMIF3', 'SUMIF1'):
                 if form == 'SUMIF1':
                     # Excel's shorthand: the range to add up named by its first cell - a cell
@@ -1132,7 +1133,7 @@ def add_compare_gadget(rnd, spec):
     cells.append({'a': key, 'v': rnd.choice((1, True, 0)), 'w': [1, True, 0, False]})
     out = []
     forms = [('=SUMPRODUCT((A70:A72=B70)*1)', col + [key]), ('=SUMPRODUCT(LEN(A70:A72&""))', col),
-             ('=COUNTIF(A70:A72,B70)', col + [key]), ('=SUMPRODUCT((A70:A72>0)*1)', col),
+             ('=COUNTIF(A70:A72,B70&"")', col + [key]), ('=SUMPRODUCT((A70:A72>0)*1)', col),
              ('=SUMPRODUCT((A70:A72<>B70)*A70:A72)', col + [key])]
     rnd.shuffle(forms)
     for i, (f, p) in enumerate(forms[:3]):
